@@ -74,6 +74,16 @@ class C15(Prop):
         ks += ["rebuild " + tok(k) for k in keys if k.startswith("/") and "//" not in k and not k.endswith("/")
                and k != "/zz"]
         scns.append(Scenario("name", "C15_closure", [], ks, {}))
+        # the same algebra seen through clients: attribute / get / static access of one key; two clients sharing (or not)
+        # a location; a remapped key under set(overwrite=False)
+        short_ns, short_keys = strings(3), [k for k in strings(4) if k != ""]
+        ops = ["cacc %s %s" % (tok(ns), tok(k)) for ns in short_ns for k in short_keys]
+        scns.append(Scenario("name", "C15_client_access", [], ops, {}))
+        NS = ["", "/", "a", "/a", "/a/", "a/b", "/a/b"]
+        KS = ["a", "b", "a/b", "/a", "/a/b", "/a/a", "/b", "b/a"]
+        ops = ["cshare %s %s %s %s" % (tok(na), ka, tok(nb), kb) for na in NS for ka in KS for nb in NS for kb in KS]
+        ops += ["cremap %s %s %s" % (tok(na), ka, loc) for na in NS for ka in KS for loc in ["/L", "/a", "/a/b", "/b"]]
+        scns.append(Scenario("name", "C15_client_share", [], ops, {}))
         if tier == "thorough":
             wide = "/ab_ .x"
             for j in range(200):
@@ -103,6 +113,35 @@ class C15(Prop):
                 ns = untok(args[0])
                 if r != "R " + (ns if ns.startswith("/") else "/" + ns):
                     out.append(viol("client-namespace", "Client(namespace=%r).namespace -> %s" % (ns, r)))
+                continue
+            if op in ("cacc", "cshare", "cremap"):
+                def cns(x):
+                    return x if x.startswith("/") else "/" + x
+
+                def wf_key(k):
+                    return wf_rel(k) or (k.startswith("/") and len(k) > 1 and "//" not in k and not k.endswith("/"))
+
+                def ab(ns, k):
+                    return k if k.startswith("/") else norm(cns(ns)) + k
+                ns, k = untok(args[0]), untok(args[1])
+                if not (wf_ns(cns(ns)) and wf_key(k)):
+                    continue
+                if op == "cacc":
+                    if r != "R ok|ok|val i:7|val i:7|val i:7":
+                        out.append(viol("client-access", "Client(namespace=%r): register / write / read %r by attribute, "
+                                        "get(absolute name), Blackboard.get -> %s" % (ns, k, r)))
+                elif op == "cshare":
+                    nb, kb = untok(args[2]), untok(args[3])
+                    if wf_ns(cns(nb)) and wf_key(kb):
+                        want = "R val i:2" if ab(ns, k) == ab(nb, kb) else "R val i:1"
+                        if r != want:
+                            out.append(viol("same-location", "clients (%r, %r) and (%r, %r): absolute names %s / %s, A reads "
+                                            "%s expected %s" % (ns, k, nb, kb, ab(ns, k), ab(nb, kb), r, want)))
+                else:
+                    loc = args[2]
+                    if ab(ns, k) != loc and r != "R False,val i:1,KeyError|True,val i:2,val i:1":
+                        out.append(viol("remap-target", "key %r of Client(%r) remapped to %s: set(overwrite=False) with "
+                                        "(target occupied | own name occupied) -> %s" % (k, ns, loc, r)))
                 continue
             if op in ("closure", "rebuild"):
                 k = untok(args[0])
